@@ -1,4 +1,5 @@
 import PvModel.Run
+import PvModel.Utils
 import PvModel.Lemmas.DualLemmas
 import PvModel.Props.C04
 /-!
@@ -123,6 +124,43 @@ theorem agents_dual {σ : Type} {s1 s2 : RunState σ} (h : StRel s1 s2) : ArenaE
     simp only [h1, h2, ExRel, Except.toOption, Option.getD] at hr ⊢
   · exact .nil
   · exact hr
+
+
+/-! ## the readers of the two results rank alike — ties included
+
+What the caller reads off a maximisation result through the selection helpers with `task_type = MAX` (and through the trend utilities,
+which call them) is what it reads off the dual minimisation result with `MIN`: the same agents in the same order, also among agents of
+equal cost (both directions sort stably: `list.sort(key, reverse)` keeps the original order of equal keys). -/
+
+/-- one recorded agent of the max run and its counterpart of the min run -/
+def AgentDual (a b : Agent) : Prop := a.position = b.position ∧ a.cost = b.cost.neg
+
+theorem costLe_max_min (a a' b b' : Agent) (h : AgentDual a b) (h' : AgentDual a' b') :
+    costLe .max a a' = costLe .min b b' := by
+  simp only [costLe, h.2, h'.2, Num.le_neg_neg]
+
+/-- `sort_by_cost(g, MAX)` on the max run's generation = `sort_by_cost(g', MIN)` on the dual generation, agent by agent. -/
+theorem sortByCost_max_min {g1 g2 : List Agent} (h : GenDual g1 g2) : GenDual (sortByCost .max g1) (sortByCost .min g2) :=
+  isort_forall₂ _ _ costLe_max_min h
+
+theorem bestAgents_max_min {g1 g2 : List Agent} (h : GenDual g1 g2) (n : Nat) : GenDual (bestAgents .max g1 n) (bestAgents .min g2 n) :=
+  List.Forall₂.take n (sortByCost_max_min h)
+
+theorem worstAgents_max_min {g1 g2 : List Agent} (h : GenDual g1 g2) (n : Nat) : GenDual (worstAgents .max g1 n) (worstAgents .min g2 n) := by
+  unfold worstAgents
+  rw [List.Forall₂.length_eq h]
+  exact List.Forall₂.drop _ (sortByCost_max_min h)
+
+/-- the `idx`-th best agent of generation `i`: same position, negated cost, or the same `IndexError`. -/
+theorem rankedAgent_max_min {e1 e2 : List (List Agent)} (h : List.Forall₂ GenDual e1 e2) (idx i : Nat) :
+    ExRel AgentDual (rankedAgent .max e1 idx i) (rankedAgent .min e2 idx i) := by
+  unfold rankedAgent
+  rcases List.Forall₂.getElem? h i with ⟨h1, h2⟩ | ⟨g1, g2, h1, h2, hg⟩
+  · simp [h1, h2, ExRel]
+  · simp only [h1, h2]
+    rcases List.Forall₂.getElem? (sortByCost_max_min hg) idx with ⟨h3, h4⟩ | ⟨a, b, h3, h4, hab⟩
+    · simp [h3, h4, ExRel]
+    · simp only [h3, h4, ExRel]; exact hab
 
 /-! ## selection looks at costs only -/
 
@@ -287,6 +325,24 @@ theorem c12_duality {R σ : Type} (Tmax Tmin : TaskSem) (h : Dual Tmax Tmin) (A 
   · exact hr
   · exact ⟨hr.1, hr.2.1, hr.2.2.1⟩
 
+/-- **C12 for the readers of the two results**: whatever rank `idx` and generation `i` the caller asks the trend utilities for, the
+maximisation result (read with `MAX`) and the dual minimisation result (read with `MIN`) name the same position with exactly negated
+cost, or both raise `IndexError` — equal-cost agents included. -/
+theorem c12_readers {R σ : Type} (Tmax Tmin : TaskSem) (h : Dual Tmax Tmin) (A : DAlg σ) (hA : AlgFitBlind A)
+    (ar : Arith R) (cfg : StopCfg R) (hes : cfg.es = none) (hfe : cfg.fe = none)
+    (rate1 rate2 : List Agent → R) (s0 : σ) (idx i : Nat) :
+    match runBody ar cfg (A.toAlg Tmax) rate1 .max ⟨s0, [], [], []⟩,
+          runBody ar cfg (A.toAlg Tmin) rate2 .min ⟨s0, [], [], []⟩ with
+    | .ok (r1, _, _), .ok (r2, _, _) => ExRel AgentDual (rankedAgent .max r1.evolution idx i) (rankedAgent .min r2.evolution idx i)
+    | .error e1, .error e2 => e1 = e2
+    | _, _ => False := by
+  have hr := c12_duality Tmax Tmin h A hA ar cfg hes hfe rate1 rate2 s0
+  rcases e1 : runBody ar cfg (A.toAlg Tmax) rate1 .max ⟨s0, [], [], []⟩ with e | ⟨r1, t1, b1⟩ <;>
+    rcases e2 : runBody ar cfg (A.toAlg Tmin) rate2 .min ⟨s0, [], [], []⟩ with e' | ⟨r2, t2, b2⟩ <;>
+    simp only [e1, e2] at hr ⊢
+  · exact hr
+  · exact rankedAgent_max_min hr.1 idx i
+
 /-! ## non-vacuity: a concrete dual pair of tasks and a concrete fitness-blind (greedy, cost-reading) optimizer -/
 
 private def demoDecl : TaskDecl := ⟨[.cont (.fin 0) (.fin 1)]⟩
@@ -434,5 +490,9 @@ theorem fitness_reader_exec (Tmax Tmin : TaskSem) (h : Dual Tmax Tmin) (hfit : T
   · simp [p, Prog.exec, m1, resolve, Except.map, bind, Except.bind]
   · simp [p, Prog.exec, m2, resolve, Except.map, Ne.symm hne]
 
-end C12
+/-- ties: two agents of equal cost keep their recorded order in both readings (rank 0 is the first of them, rank 1 the second) -/
+example : ((sortByCost .max [⟨[.num (.fin 1)], .fin 5, .fin 0, 0⟩, ⟨[.num (.fin 2)], .fin 5, .fin 0, 1⟩, ⟨[.num (.fin 3)], .fin 7, .fin 0, 2⟩]).map (·.tag),
+           (sortByCost .min [⟨[.num (.fin 1)], .fin (-5), .fin 0, 0⟩, ⟨[.num (.fin 2)], .fin (-5), .fin 0, 1⟩, ⟨[.num (.fin 3)], .fin (-7), .fin 0, 2⟩]).map (·.tag))
+    = ([2, 0, 1], [2, 0, 1]) := by decide +kernel
 
+end C12
